@@ -27,6 +27,7 @@ const (
 	evPanic    = 5 // client function panicked (value kept by the client)
 	evSpawn    = 6 // I started a new task (addr = its id): the code under test executed a go statement
 	evJoin     = 7 // do not run me until every task I spawned has finished (sync.WaitGroup.Wait)
+	evPoll     = 8 // I am waiting for something outside the simulator (a timer, a context): run me only when nobody else can run
 )
 
 // maxTasks bounds the number of tasks of one run (initial clients + goroutines the code under test spawns).
@@ -56,6 +57,7 @@ type RunResult struct {
 	Panics       map[int]string
 	Grants       []int32 // task id per step: the complete interleaving
 	Spawned      int     // goroutines started by the code under test during the run (go statements)
+	Leaked       int     // of those, still alive (parked or looping) when every client had finished
 }
 
 type schedState struct {
@@ -68,7 +70,14 @@ type schedState struct {
 	childrenLive []int
 	remaining    int
 	spawned      int
+	childDone    []chan struct{} // closed by each spawned goroutine when it returns; read by the scheduler after the run
 }
+
+//go:norace
+func (s *schedState) addChildDone(c chan struct{}) { s.childDone = append(s.childDone, c) }
+
+//go:norace
+func (s *schedState) childDones() []chan struct{} { return s.childDone }
 
 //go:norace
 func (s *schedState) addTask(p [2]int, parent int) int {
@@ -346,6 +355,14 @@ func Run(clients []func(), schedule []uint16, maxSteps int) *RunResult {
 	res := &RunResult{Panics: map[int]string{}}
 	lastGrant = make([]int64, maxTasks)
 	onceReset()
+	chanReset()
+	{
+		h := uint64(1469598103934665603)
+		for _, v := range schedule {
+			h = (h ^ uint64(v)) * 1099511628211
+		}
+		selSeed(h)
+	}
 	setCur(s)
 	setAbort(false)
 	setActive(true)
@@ -382,6 +399,7 @@ func Run(clients []func(), schedule []uint16, maxSteps int) *RunResult {
 		stBlocked
 		stFinished
 		stJoining // waiting for the tasks it spawned
+		stPolling // waiting for an event outside the simulator; retried when no other task can run
 	)
 	status := make([]int, maxTasks)
 	blockedOn := make([]uint64, maxTasks)
@@ -404,11 +422,38 @@ func Run(clients []func(), schedule []uint16, maxSteps int) *RunResult {
 	}
 
 	step := 0
+	graceEnd := 0
 	for s.left() > 0 {
 		var runnable []int
 		for i := 0; i < s.count(); i++ {
 			if status[i] == stRunnable {
 				runnable = append(runnable, i)
+			}
+		}
+		if len(runnable) == 0 {
+			for i := 0; i < s.count(); i++ {
+				if status[i] == stPolling {
+					runnable = append(runnable, i)
+				}
+			}
+		}
+		clientsLeft := 0
+		for i := 0; i < n; i++ {
+			if status[i] != stFinished {
+				clientsLeft++
+			}
+		}
+		if clientsLeft == 0 {
+			// only goroutines the code under test started are left (background workers that wait for work or
+			// for a stop signal nobody sends): not a deadlock of the clients. They get a grace period to finish.
+			if graceEnd == 0 {
+				graceEnd = step + 400
+			}
+			onlyPolling := len(runnable) > 0 && status[runnable[0]] == stPolling
+			if len(runnable) == 0 || onlyPolling || step >= graceEnd || step >= maxSteps {
+				res.Leaked = s.left()
+				abortAll()
+				break
 			}
 		}
 		if len(runnable) == 0 {
@@ -437,15 +482,20 @@ func Run(clients []func(), schedule []uint16, maxSteps int) *RunResult {
 		if int(ev.task) != pick {
 			panic(fmt.Sprintf("simrt: event from task %d while task %d holds the token", ev.task, pick))
 		}
+		if status[pick] == stPolling {
+			status[pick] = stRunnable
+		}
 		switch ev.kind {
 		case evYield:
+		case evPoll:
+			status[pick] = stPolling
 		case evBlocked:
 			status[pick] = stBlocked
 			blockedOn[pick] = ev.addr
 			res.Contended++
 		case evReleased:
 			for i := 0; i < s.count(); i++ {
-				if status[i] == stBlocked && blockedOn[i] == ev.addr {
+				if status[i] == stBlocked && (blockedOn[i] == ev.addr || blockedOn[i] == anyAddr || ev.addr == anyAddr) {
 					status[i] = stRunnable
 				}
 			}
@@ -463,7 +513,9 @@ func Run(clients []func(), schedule []uint16, maxSteps int) *RunResult {
 	}
 	res.Steps = step
 	res.Spawned = s.nSpawned()
-	spawnWG.Wait()
+	for _, c := range s.childDones() {
+		<-c
+	}
 	for i := range done {
 		<-done[i]
 		if panicVals[i] != "" {
@@ -474,12 +526,11 @@ func Run(clients []func(), schedule []uint16, maxSteps int) *RunResult {
 	return res
 }
 
-var spawnWG sync.WaitGroup // goroutines started through Spawn/GoRun; waited for at the end of Run
-
 // Child is the handle of a goroutine the code under test is about to start.
 type Child struct {
-	s  *schedState
-	id int
+	s    *schedState
+	id   int
+	done chan struct{}
 }
 
 // Spawn is evaluated by the spawning task as part of the rewritten go statement
@@ -501,8 +552,9 @@ func Spawn(site string) *Child {
 	// no scheduling point here: the goroutine does not exist before the go statement that follows has run,
 	// so the new task must not be granted the token before the spawner reaches its next scheduling point
 	id := s.addTask(p, getCurTask())
-	spawnWG.Add(1)
-	return &Child{s: s, id: id}
+	c := &Child{s: s, id: id, done: make(chan struct{})}
+	s.addChildDone(c.done)
+	return c
 }
 
 // GoRun is the body of the rewritten go statement: the new goroutine waits for its first grant, runs
@@ -512,7 +564,7 @@ func GoRun(c *Child, fn func()) {
 		fn()
 		return
 	}
-	defer spawnWG.Done()
+	defer close(c.done)
 	finished := false
 	defer func() {
 		if r := recover(); r != nil {
